@@ -7,18 +7,37 @@ import os
 import threading
 
 
-def _check(z3, s, budget_ms, *assumptions):
-    """s.check() with a hard stop: z3's own timeout is not honoured inside some tactics (nlsat, preprocessing of large
-    nonlinear goals); a timer interrupts the context a little after the budget, which yields `unknown`"""
-    t = threading.Timer(budget_ms / 1000.0 + 3.0, s.ctx.interrupt)
+_LAST = {}
+
+
+def _check(z3, s, budget_ms, ematching=None, tactic=None):
+    """s.check() with a hard stop.  z3's own timeout is not honoured inside some tactics (nlsat, preprocessing of large nonlinear
+    goals), so a timer interrupts the solver's context a little after the budget.  The query runs in a PRIVATE context that is
+    thrown away afterwards: an interrupt that arrives late can therefore never cancel a later, unrelated query (it did, when all
+    queries shared the main context: verdicts became unknown at random)."""
+    ctx = z3.Context()
+    if tactic:
+        s2 = z3.Then(*[z3.Tactic(t, ctx=ctx) for t in tactic], ctx=ctx).solver()
+    else:
+        s2 = z3.Solver(ctx=ctx)
+    s2.set("timeout", int(budget_ms))
+    if ematching is None:
+        ematching = getattr(s, "_pyvc_ematching", False)
+    if ematching:
+        s2.set("auto_config", False)
+        s2.set("mbqi", False)
+    s2.add([a.translate(ctx) for a in s.assertions()])
+    t = threading.Timer(budget_ms / 1000.0 + 3.0, ctx.interrupt)
     t.daemon = True
     t.start()
     try:
-        return s.check(*assumptions)
+        r = s2.check()
     except z3.Z3Exception:
-        return z3.unknown
+        r = z3.unknown
     finally:
         t.cancel()
+    _LAST["solver"] = s2
+    return r
 
 
 def _case_split(z3, smt2, timeout_ms):
@@ -59,11 +78,9 @@ def _case_split(z3, smt2, timeout_ms):
     def unsat_with(extra):
         s = z3.Solver()
         s.set("timeout", timeout_ms)
-        s.set("auto_config", False)
-        s.set("mbqi", False)
         s.add(*rest)
         s.add(*extra)
-        return _check(z3, s, timeout_ms) == z3.unsat
+        return _check(z3, s, timeout_ms, ematching=True) == z3.unsat
     for t in terms[:3]:
         cases = [[]]
         for sk in sks[:2]:
@@ -106,11 +123,9 @@ def _eq_split(z3, fs, sks, timeout_ms):
     for c in cases:
         s = z3.Solver()
         s.set("timeout", timeout_ms)
-        s.set("auto_config", False)
-        s.set("mbqi", False)
         s.add(*fs)
         s.add(*c)
-        if _check(z3, s, timeout_ms) != z3.unsat:
+        if _check(z3, s, timeout_ms, ematching=True) != z3.unsat:
             return None
     return "%d equality cases on %s" % (len(cases), ", ".join(str(sk) for sk, _ in use))
 
@@ -151,11 +166,9 @@ def _ite_split(z3, fs, ids, timeout_ms):
     for bits in itertools.product((True, False), repeat=len(conds)):
         s = z3.Solver()
         s.set("timeout", timeout_ms)
-        s.set("auto_config", False)
-        s.set("mbqi", False)
         s.add(*fs)
         s.add(*[c if b else z3.Not(c) for c, b in zip(conds, bits)])
-        if _check(z3, s, timeout_ms) != z3.unsat:
+        if _check(z3, s, timeout_ms, ematching=True) != z3.unsat:
             return None
     return "%d if-then-else cases" % (2 ** len(conds))
 
@@ -215,8 +228,37 @@ def solve(task):
                     out["verdict"], out["backend"] = "proved", "z3-5.1(api,purified-ground-part,nlsat)"
                     out["seconds"] = round(time.time() - t0, 3)
                     return out
+            # pass 0b: the same quantifier-free hypotheses with uninterpreted functions kept (congruence + arithmetic)
+            if len(ground) < len(fs):
+                s1 = z3.Solver()
+                s1.add(*ground)
+                if _check(z3, s1, min(timeout_ms, 5000)) == z3.unsat:
+                    out["verdict"], out["backend"] = "proved", "z3-5.1(api,ground-part)"
+                    out["seconds"] = round(time.time() - t0, 3)
+                    return out
         except Exception as e:
             out["reason"] = "ground pass: %s" % e
+        # a quantifier-free goal with products of unknowns (polynomial identity / inequality): E-matching has nothing to offer,
+        # go straight to the equation-solving pipeline
+        try:
+            goal_fs = [f for f in fs if not (z3.is_app(f) and f.decl().name().startswith(("hint!", "split!")))]
+            g = goal_fs[-1] if goal_fs else None
+
+            def _nl(t, memo={}):
+                k = t.get_id()
+                if k not in memo:
+                    memo[k] = (z3.is_mul(t) and sum(1 for c in t.children() if not (z3.is_rational_value(c) or z3.is_int_value(c))) >= 2) \
+                        or any(_nl(c) for c in t.children())
+                return memo[k]
+            if g is not None and not _has_q(g) and _nl(g):
+                s = z3.Solver()
+                s.from_string(smt2)
+                if _check(z3, s, min(timeout_ms, 15000), tactic=("simplify", "solve-eqs", "smt")) == z3.unsat:
+                    out["verdict"], out["backend"] = "proved", "z3-5.1(api,solve-eqs+smt)"
+                    out["seconds"] = round(time.time() - t0, 3)
+                    return out
+        except Exception as e:
+            out["reason"] += " | nl pass: %s" % e
         # pass 1: E-matching only (fast, complete enough for the trigger-annotated VCs); pass 2: default configuration
         s = z3.SolverFor("ALL") if False else z3.Solver()
         has_split = "split!Int" in smt2 or "sk!" in smt2
@@ -224,7 +266,7 @@ def solve(task):
         s.set("auto_config", False)
         s.set("mbqi", False)
         s.from_string(smt2)
-        r = _check(z3, s, min(timeout_ms, 3000 if has_split else 20000))
+        r = _check(z3, s, min(timeout_ms, 3000 if has_split else 20000), ematching=True)
         if r != z3.unsat and has_split:
             try:
                 how = _case_split(z3, smt2, min(timeout_ms, 5000))
@@ -240,12 +282,18 @@ def solve(task):
             s.set("auto_config", False)
             s.set("mbqi", False)
             s.from_string(smt2)
-            r = _check(z3, s, min(timeout_ms, 20000))
+            r = _check(z3, s, min(timeout_ms, 20000), ematching=True)
         if r != z3.unsat:
+            # pass 2: equalities solved away first (ghost facts and unfoldings are equations), then the SMT core: this is what
+            # makes polynomial identities over many defined names robust (the plain solver wanders)
+            if _check(z3, s, min(timeout_ms, 15000), tactic=("simplify", "solve-eqs", "smt")) == z3.unsat:
+                out["verdict"], out["backend"] = "proved", "z3-5.1(api,solve-eqs+smt)"
+                out["seconds"] = round(time.time() - t0, 3)
+                return out
             s = z3.Solver()
             s.set("timeout", timeout_ms)
             s.from_string(smt2)
-            r = _check(z3, s, timeout_ms)
+            r = _check(z3, s, timeout_ms, ematching=False)
         else:
             out["backend"] = "z3-5.1(api,ematching)"
         if r == z3.unsat:
@@ -254,16 +302,19 @@ def solve(task):
             out["verdict"] = "refuted"
             if want_model:
                 try:
-                    m = s.model()
+                    m = _LAST["solver"].model()
                     out["model"] = {d.name(): str(m[d])[:400] for d in m.decls() if d.arity() == 0 and not d.name().startswith("k!")}
                 except Exception as e:  # model printing must never turn a verdict into a crash
                     out["model"] = {"error": str(e)}
         else:
-            out["reason"] = s.reason_unknown()
+            out["reason"] = _LAST["solver"].reason_unknown()
     except Exception as e:
         out["reason"] = "z3 api: %s" % e
     if out["verdict"] == "unknown" and second:
-        for label, cmd in (("z3-4.8.12(bin)", ["/usr/bin/z3", "-in", "-T:%d" % max(1, timeout_ms // 1000)]),
+        import shutil
+        znew = shutil.which("z3-new")
+        for label, cmd in ((("z3-5.1(bin)", [znew, "-in", "-T:%d" % max(1, timeout_ms // 1000)]),) if znew else ()) + \
+                          (("z3-4.8.12(bin)", ["/usr/bin/z3", "-in", "-T:%d" % max(1, timeout_ms // 1000)]),
                            ("cvc5-1.0.3(bin)", ["/usr/bin/cvc5", "--lang", "smt2", "--tlimit=%d" % timeout_ms])):
             if not os.path.exists(cmd[0]):
                 continue
